@@ -103,6 +103,38 @@ reg("C05",
     "Phrases ordered by start tick, notes strictly increasing (the property's quantifier).",
     "DESIGN.md section 4, C05")
 
+reg("C06",
+    "Hypothesis-generated charts under metamorphic relations (section permutation, CRLF/BOM variants, unknown-section insertion, required-section removal) plus model conformance and captured log records; all 40 headers enumerated",
+    "Exploration by generated-input search: every single header and all 40 together each run; Hypothesis "
+    "charts with up to 5/10 tracks, marker lines first and last in every section, a drawn section "
+    "permutation, LF/CRLF through StringIO and real files, BOM through from_filepath, 0..3 unknown "
+    "sections with arbitrary names/bodies, and each required section removed. Oracles: model "
+    "conformance, equality + observation equality, exact multiset of log records, ValueError.",
+    "Header table hard-coded in the harness; scratch files under /verif/.work (removed per case).",
+    "DESIGN.md section 4, C06")
+
+reg("C13",
+    "Hypothesis-generated charts x generated selections and section replacements under a selection/non-interference relation against the unrestricted parse",
+    "Exploration by generated-input search: charts with 0..8/16 of the 40 tracks; selections None, [], "
+    "subsets, supersets, absent pairs, duplicates, list or tuple; one section replaced by another "
+    "track's body, garbage, an invalid body or nothing. Oracle: exact key set, per-track equality and "
+    "observation equality with the unrestricted parse, common parts unchanged, unselected invalid "
+    "sections never make the parse fail.",
+    "Relation is differential against the same library's unrestricted parse (conformance of that "
+    "parse with the model is C06's subject).",
+    "DESIGN.md section 4, C13")
+
+reg("C14",
+    "Hypothesis insertion/movement of certified-unparsable lines (metamorphic) with log-record conservation, datum-level conservation and kind-order permutation, and differential ownership of generated strings against reference recognisers",
+    "Exploration by generated-input search: garbage certified by hand-written reference recognisers is "
+    "inserted into and moved within sync/events/instrument sections (first, last, inside tick groups, "
+    "runs); observation must not change and the multiset of 'unparsable line' records must equal the "
+    "garbage; parse_data_from_chart_lines conserves lines and is independent of kind order; >=20k "
+    "(quick) grammar lines, near-misses and token soup are claimed by at most one sync and one "
+    "instrument kind, agreeing with the reference grammar.",
+    "Garbage alphabet is ASCII (+ a few letters); the reference recognisers are the harness' own.",
+    "DESIGN.md section 4, C14")
+
 
 def build():
     checks = []
